@@ -141,6 +141,10 @@ struct State {
     step: u64,
     switches: u64,
     max_steps: u64,
+    /// Pre-emption budget: once this many context switches have happened the random strategy
+    /// stops pre-empting a thread that can continue (bounds the cost of huge workloads; the
+    /// interesting interleavings need few pre-emptions).
+    max_switches: u64,
     threads: Vec<Th>,
     current: usize,
     bag: Vec<Task>,
@@ -238,6 +242,7 @@ impl State {
             step: 0,
             switches: 0,
             max_steps: 5_000_000,
+            max_switches: 60_000,
             threads: Vec::new(),
             current: 0,
             bag: Vec::new(),
@@ -284,6 +289,7 @@ impl State {
                     "strategy" => strategy = v.to_owned(),
                     "pct_horizon" => pct_horizon = v.parse().unwrap_or(2000),
                     "max_steps" => st.max_steps = v.parse().unwrap_or(5_000_000),
+                    "max_switches" => st.max_switches = v.parse().unwrap_or(60_000),
                     "out" => st.out_prefix = Some(v.to_owned()),
                     "log_level" => st.log_level = v.parse().unwrap_or(1),
                     "decisions_in" => {
@@ -410,7 +416,9 @@ impl State {
             }
             Strategy::Random(p) => {
                 let p = u64::from(*p);
-                if me_ok {
+                if me_ok && s.switches >= s.max_switches {
+                    0
+                } else if me_ok {
                     if s.rng.below(1000) < p {
                         1 + s.rng.below(cands.len() as u64) as usize
                     } else {
